@@ -24,7 +24,7 @@ FUNCS = ['generate_sub_two_numbers', 'add_sub_two_numbers', 'add_sub2', 'add_sub
          'add_pairwise_if_then_else', 'generate_pairwise_xor', 'add_pairwise_xor']
 REQUIRED = {('mon:%s.checked' % f): (3 if f.startswith('generate_') else 8) for f in FUNCS}
 REQUIRED.update({'host:internal': 40, 'endian:big': 40, 'opt:add_outputs=True': 20, 'opt:add_outputs=False': 20,
-                 'opt:result_labels': 20, 'unequal_widths': 20, 'equal:does_not_fit': 5, 'divmod:zero_divisor_possible': 5, 'skewed_widths': 10})
+                 'opt:result_labels': 20, 'unequal_widths': 20, 'equal:does_not_fit': 5, 'divmod:zero_divisor_possible': 5, 'skewed_widths': 10, 'gadget_sweep_widths': 30})
 
 SUB = 'cirbo.synthesis.generation.arithmetics.subtraction'
 DIV = 'cirbo.synthesis.generation.arithmetics.div_mod'
@@ -38,6 +38,9 @@ def shards(tier, seed):
     budget = 50 if tier == 'quick' else 560
     out = [{'kind': 'random', 'count': per, 'budget_s': budget, 'maxw': 6 if tier == 'quick' else 10} for _ in range(13)]
     out.append({'kind': 'skewed', 'budget_s': budget, 'wide': [9, 12, 17] if tier == 'quick' else [8, 9, 12, 16, 17, 24, 33]})
+    sweep = list(range(1, 41)) + [63, 64, 65] + ([] if tier == 'quick' else [100, 101, 128, 256])
+    for part in range(2):
+        out.append({'kind': 'gadget_sweep', 'widths': sweep[part::2], 'budget_s': budget})
     out.append({'kind': 'generate', 'widths': [1, 2, 3], 'budget_s': budget})
     out.append({'kind': 'generate', 'widths': [4, 5], 'budget_s': budget})
     out.append({'kind': 'generate', 'widths': [6] if tier == 'quick' else [6, 7, 8, 12, 16, 24], 'budget_s': budget})
@@ -484,6 +487,33 @@ def run_shard(spec, ctx):
                         run_call({'kind': 'add', 'func': 'add_subtract_with_compare', 'host': netgen.describe(host), 'mode': 'inputs',
                                   'operands': [ins[:n], ins[n:]], 'big_endian': be, 'rseed': rng.getrandbits(32)}, ctx)
                         ctx.count('skewed_widths')
+        return
+    if spec['kind'] == 'gadget_sweep':
+        # the linear-size gadgets over a contiguous range of widths (two-digit indices, machine-word sizes), stand-alone
+        # and on a host with caller-chosen result labels of the usual numbered kind
+        for w in spec['widths']:
+            if ctx.out_of_time():
+                ctx.note_inconclusive('gadget width sweep not finished within the budget')
+                return
+            run_call({'kind': 'generate', 'func': 'generate_pairwise_xor', 'args': [w]}, ctx)
+            run_call({'kind': 'generate', 'func': 'generate_pairwise_if_then_else', 'args': [w]}, ctx)
+            run_call({'kind': 'generate', 'func': 'generate_plus_one', 'args': [w, w + 1], 'big_endian': w % 2 == 0}, ctx)
+            run_call({'kind': 'generate', 'func': 'generate_equal', 'args': [w, rng.choice([0, (1 << w) - 1, rng.randrange(1 << w)])]}, ctx)
+            host = netgen.rand_net(rng, n_in=3 * w, n_g=0, n_out=0)
+            ins = list(host.inputs)
+            stem = rng.choice(['m', 'r_', 'out', 'if_then_else_', 'x_'])
+            labels = ['%s%d' % (stem, i) for i in range(w)]
+            if not any(l in host.gates for l in labels):
+                run_call({'kind': 'add', 'func': 'add_pairwise_if_then_else', 'host': netgen.describe(host), 'mode': 'inputs',
+                          'operands': [ins[:w], ins[w:2 * w], ins[2 * w:]], 'result_labels': labels, 'add_outputs': w % 2 == 1,
+                          'rseed': rng.getrandbits(32)}, ctx)
+                run_call({'kind': 'add', 'func': 'add_pairwise_xor', 'host': netgen.describe(host), 'mode': 'inputs',
+                          'operands': [ins[:w], ins[w:2 * w]], 'result_labels': labels, 'add_outputs': w % 2 == 0,
+                          'rseed': rng.getrandbits(32)}, ctx)
+                run_call({'kind': 'add', 'func': 'add_plus_one', 'host': netgen.describe(host), 'mode': 'inputs',
+                          'operands': [ins[:w]], 'result_labels': labels, 'add_outputs': True, 'big_endian': False,
+                          'rseed': rng.getrandbits(32)}, ctx)
+            ctx.count('gadget_sweep_widths')
         return
     if spec['kind'] == 'generate':
         for w in spec['widths']:
